@@ -226,11 +226,13 @@ theorem C12_binOps_are_binary : ∀ o ∈ binOps, Bin o := by
   rcases ho with rfl | rfl | rfl | rfl | rfl | rfl | rfl | rfl | rfl | rfl | rfl | rfl | rfl | rfl | rfl | rfl | rfl | rfl <;>
     exact ⟨rfl, by decide⟩
 
-/-- **Round trip.**  For every operator tree `t` over identifiers and binary operators - of any size and
+/-- **Round trip.**  For every operator tree `t` over atoms (identifiers, integer, decimal, string,
+    boolean and regexp literals), prefix operators (`!`, `-`, `√`) and binary operators - of any size and
     shape (nesting below the parser's guard of 2000) - printed by `T.pr` with a pair of parentheses
-    exactly around a left operand of lower level and around a right operand of lower or equal level,
-    `return <that text>;` parses to exactly `t`.  Hence: higher level binds tighter, equal levels group
-    left to right, parentheses override, for expressions of unbounded size. -/
+    exactly around a left operand of lower level, around a right operand of lower or equal level, and
+    around a binary operand of a prefix operator, `return <that text>;` parses to exactly `t`.  Hence:
+    prefix binds tighter than every binary operator, higher level binds tighter, equal levels group left
+    to right, parentheses override, for expressions of unbounded size. -/
 theorem C12_round_trip (t : T) (hwf : t.wf) (hn : t.nest ≤ maxNesting) :
     parse (retTok :: t.pr ++ [semiTok, Token.eof]) = some [.ret t.toExpr] :=
   pratt_round_trip t hwf hn
@@ -244,15 +246,34 @@ theorem C12_grouping_unambiguous (t1 t2 : T) (h1 : t1.wf) (h2 : t2.wf) (n1 : t1.
   rw [a] at b
   simpa using b
 
-/-- non-vacuity: a concrete tree, its minimal-parentheses text, and the theorem's hypotheses -/
+/-- the atoms of the round-trip theorem: what the lexer's operand tokens denote -/
+theorem C12_atoms (n v l : Str) (i : Int64) (x : Float) (hi : parseIntLit l = some i) (hx : parseFloatLit l = some x) :
+    Atom ⟨.IDENT, n⟩ (.ident n) ∧ Atom ⟨.STRING, v⟩ (.strLit v) ∧ Atom ⟨.TRUE, l⟩ (.boolLit true) ∧
+    Atom ⟨.FALSE, l⟩ (.boolLit false) ∧ Atom ⟨.INT, l⟩ (.intLit l i) ∧ Atom ⟨.FLOAT, l⟩ (.floatLit l x) ∧
+    Atom ⟨.REGEXP, l⟩ (.regexpLit l (splitRegexp l).1 (splitRegexp l).2) :=
+  ⟨atom_ident n, atom_string v, atom_true l, atom_false l, atom_int l i hi, atom_float l x hx, atom_regexp l⟩
+
+/-- … and its prefix operators -/
+theorem C12_prefix_ops : Pre ⟨.BANG, ['!']⟩ ∧ Pre ⟨.MINUS, ['-']⟩ ∧ Pre ⟨.SQRT, ['√']⟩ := ⟨rfl, rfl, rfl⟩
+
+private def idT (n : Str) : T := .leaf ⟨.IDENT, n⟩ (.ident n)
+
+/-- non-vacuity: a concrete tree, its minimal-parentheses text, and the theorem's hypotheses:
+    `(a + b) * -(c - (d - e))` and `!!a` -/
 theorem C12_round_trip_example :
     let plus : Token := ⟨.PLUS, ['+']⟩
     let star : Token := ⟨.ASTERISK, ['*']⟩
     let minus : Token := ⟨.MINUS, ['-']⟩
-    let t : T := .node star (.node plus (.leaf ['a']) (.leaf ['b'])) (.node minus (.leaf ['c']) (.node minus (.leaf ['d']) (.leaf ['e'])))
-    -- (a + b) * (c - (d - e))
-    t.pr.map (·.lit) = [['('], ['a'], ['+'], ['b'], [')'], ['*'], ['('], ['c'], ['-'], ['('], ['d'], ['-'], ['e'], [')'], [')']] ∧
-    t.nest ≤ maxNesting := by
+    let bang : Token := ⟨.BANG, ['!']⟩
+    let t : T := .node star (.node plus (idT ['a']) (idT ['b'])) (.pre minus (.node minus (idT ['c']) (.node minus (idT ['d']) (idT ['e']))))
+    t.pr.map (·.lit) = [['('], ['a'], ['+'], ['b'], [')'], ['*'], ['-'], ['('], ['c'], ['-'], ['('], ['d'], ['-'], ['e'], [')'], [')']] ∧
+    t.nest ≤ maxNesting ∧
+    (T.pre bang (.pre bang (idT ['a']))).pr.map (·.lit) = [['!'], ['!'], ['a']] := by
   decide
+
+theorem C12_round_trip_example_wf :
+    (T.node ⟨.ASTERISK, ['*']⟩ (.node ⟨.PLUS, ['+']⟩ (idT ['a']) (idT ['b']))
+      (.pre ⟨.MINUS, ['-']⟩ (.node ⟨.MINUS, ['-']⟩ (idT ['c']) (idT ['d'])))).wf :=
+  ⟨⟨rfl, by decide⟩, ⟨⟨rfl, by decide⟩, atom_ident _, atom_ident _⟩, rfl, ⟨rfl, by decide⟩, atom_ident _, atom_ident _⟩
 
 end EvalFilter.Props.C12
